@@ -12,6 +12,7 @@ import (
 
 var _ = reg("C04_ASCII", C04_ASCII)
 var _ = reg("C04_Bytes", C04_Bytes)
+var _ = reg("C04_Runes", C04_Runes)
 var _ = reg("C04_Ints", C04_Ints)
 var _ = reg("C04_Numerics", C04_Numerics)
 var _ = reg("C04_Signs", C04_Signs)
@@ -66,6 +67,24 @@ func C04_Bytes() {
 	}
 	c := byteContexts[nd.Choice(len(byteContexts))]
 	parseTotal("C04/bytes", c[0]+nd.String(n)+c[1])
+}
+
+// C04_Runes: every three-byte sequence (valid code points U+0800..U+FFFF,
+// surrogates, overlong forms, truncated sequences) as a token of its own,
+// inside an identifier and inside a string: lead byte forked, the two
+// continuation bytes symbolic.
+func C04_Runes() {
+	var lead byte
+	if nd.Thorough() {
+		lead = byte(0xE0 + nd.Choice(16))
+	} else {
+		// overlong boundary, a typical lead, surrogates, private use, specials
+		lead = []byte{0xE0, 0xE2, 0xED, 0xEE, 0xEF}[nd.Choice(5)]
+	}
+	rest := nd.StringN(2)
+	r := string([]byte{lead}) + rest
+	c := [][2]string{{"", ""}, {"$.a", ""}, {"$ ? (@ == \"", "\")"}, {"$.", "b"}}[nd.Choice(4)]
+	parseTotal("C04/runes", c[0]+r+c[1])
 }
 
 func isDigits(s string, base int) bool {
